@@ -306,6 +306,11 @@ def obligations(tier):
         obs.append(Obligation(f"carboxylic-completion-{resname}", c14.h_carboxylic_site, dict(resname=resname, prop="C03"), group="completion", time_cap=1500, max_paths=100000))
     for ff in ("parse", "amber"):
         obs.append(Obligation(f"partly-protonated-input-{ff}", h_partly_protonated_input, dict(ff=ff), group="pipeline", time_cap=1500))
+    # a ligand run: every atom of the complex - also the second copy of a cofactor bound to another chain under the same
+    # residue number - is written or in the unassigned list the run returns (C16's transfer harness, distinct names)
+    from . import c16
+
+    obs.append(Obligation("ligand-run-written-or-reported", c16.h_transfer, dict(ff=0, collisions=False), group="pipeline", time_cap=1200))
     return obs
 
 
